@@ -146,6 +146,8 @@ def explicit(t, params):
         return "?"
     if k == "neg":
         return "(- %s)" % explicit(t[1], params)
+    if k == "sub":      # the terms family's fixed scalar sub-query  Query.from_("u").select("x")
+        return '(SELECT "x" FROM "u")'
     if k == "arith":
         if t[1] not in ARITH:
             raise NotJudged("operator")
